@@ -26,6 +26,7 @@ import GlmVerif.Props.C12.T_perp
 import GlmVerif.Props.C12.T_perp_orth
 import GlmVerif.Props.C12.T_angle
 import GlmVerif.Props.C12.T_trinormal
+import GlmVerif.Props.C12.T_closest
 /-! every family table of C12 holds for the model generated from the current /repo -/
 namespace Glm.Props.C12
 open Glm Glm.Spec.C12 Glm.Gen.C12
@@ -57,5 +58,6 @@ theorem all_ok : ∀ f ∈ families, f.ok lookup = true := by
     (Family.ok_congr f_perp (fun ks => by rw [show f_perp.unit = "perp" from rfl, lookup_perp])).trans perp_ok,
     (Family.ok_congr f_perp_orth (fun ks => by rw [show f_perp_orth.unit = "perp" from rfl, lookup_perp])).trans perp_orth_ok,
     (Family.ok_congr f_angle (fun ks => by rw [show f_angle.unit = "angle" from rfl, lookup_angle])).trans angle_ok,
-    (Family.ok_congr f_trinormal (fun ks => by rw [show f_trinormal.unit = "trinormal" from rfl, lookup_trinormal])).trans trinormal_ok⟩
+    (Family.ok_congr f_trinormal (fun ks => by rw [show f_trinormal.unit = "trinormal" from rfl, lookup_trinormal])).trans trinormal_ok,
+    (Family.ok_congr f_closest (fun ks => by rw [show f_closest.unit = "closest" from rfl, lookup_closest])).trans closest_ok⟩
 end Glm.Props.C12
